@@ -115,6 +115,11 @@ def h : Handler := fun op j =>
       let t ← getTable j
       pure ("[" ++ ",".intercalate ((argsDims t (← getInt j "order")).map showDims) ++ "]")
   | "reaction_check" => do out showOk (reactionCheck (← getPy j "param") (← getInt j "order"))
+  | "reaction_ctor" => do
+      out showOk (reactionCtor (← getPy j "param") (← getInt j "order") (← getBool j "checks_given") (← getBool j "dont_check_given")
+        (← getBool j "unit_selected"))
+  | "plain_rhs" => do
+      out showQList (plainRhs (← getRatList j "ks") (← getRxns j) (← getRatList j "y") (← getNat j "ns"))
   | "reaction_check_s" => do out showOk (reactionCheckS (← getPy j "param") (← getStoich j))
   | "equilibrium_check_s" => do out showOk (equilibriumCheckS (← getPy j "param") (← getStoich j))
   | "equilibrium_check" => do
